@@ -512,5 +512,187 @@ example : bgNew [(1 : Rat) / 4, 1 / 4, 1 / 4, 0, 0] = .error () := by
 
 end validation
 
+/-! ### (5) exact: every window without wildcard scores between `min_score` and `max_score` -/
+
+section bounds
+variable {K : Nat}
+
+theorem pcmp_rat (a b : Rat) :
+    pcmp a b = some (if a < b then .lt else if a = b then .eq else .gt) := by
+  unfold pcmp
+  simp only [rat_lt, rat_beq, decide_eq_true_eq]
+  by_cases h1 : a < b
+  · simp [h1]
+  · by_cases h2 : a = b
+    · simp [h2]
+    · have : b < a := lt_of_le_of_ne (not_lt.mp h1) (fun h => h2 h.symm)
+      simp [h1, h2, this]
+
+/-- `min_by` over `Rat` never panics and returns a lower bound of the slice -/
+theorem reduceBy_min (x : Rat) (ys : List Rat) :
+    ∃ v, reduceBy minKeepY x ys = .ok v ∧ v ≤ x ∧ ∀ y ∈ ys, v ≤ y := by
+  induction ys generalizing x with
+  | nil => exact ⟨x, rfl, le_refl _, by simp⟩
+  | cons y ys ih =>
+    simp only [reduceBy, pcmp_rat]
+    by_cases h1 : x < y
+    · have ⟨v, e, hv, hall⟩ := ih x
+      refine ⟨v, by simpa [h1, minKeepY] using e, hv, ?_⟩
+      intro w hw
+      rcases List.mem_cons.mp hw with rfl | hw'
+      · exact le_trans hv (le_of_lt h1)
+      · exact hall w hw'
+    · by_cases h2 : x = y
+      · have ⟨v, e, hv, hall⟩ := ih x
+        refine ⟨v, by simpa [h1, h2, minKeepY] using e, hv, ?_⟩
+        intro w hw
+        rcases List.mem_cons.mp hw with rfl | hw'
+        · rw [← h2]; exact hv
+        · exact hall w hw'
+      · have ⟨v, e, hv, hall⟩ := ih y
+        refine ⟨v, by simpa [h1, h2, minKeepY] using e, le_trans hv (not_lt.mp h1), ?_⟩
+        intro w hw
+        rcases List.mem_cons.mp hw with rfl | hw'
+        · exact hv
+        · exact hall w hw'
+
+/-- `max_by` over `Rat` never panics and returns an upper bound of the slice -/
+theorem reduceBy_max (x : Rat) (ys : List Rat) :
+    ∃ v, reduceBy maxKeepY x ys = .ok v ∧ x ≤ v ∧ ∀ y ∈ ys, y ≤ v := by
+  induction ys generalizing x with
+  | nil => exact ⟨x, rfl, le_refl _, by simp⟩
+  | cons y ys ih =>
+    simp only [reduceBy, pcmp_rat]
+    by_cases h1 : x < y
+    · have ⟨v, e, hv, hall⟩ := ih y
+      refine ⟨v, by simpa [h1, maxKeepY] using e, le_trans (le_of_lt h1) hv, ?_⟩
+      intro w hw
+      rcases List.mem_cons.mp hw with rfl | hw'
+      · exact hv
+      · exact hall w hw'
+    · by_cases h2 : x = y
+      · have ⟨v, e, hv, hall⟩ := ih y
+        refine ⟨v, by simpa [h1, h2, maxKeepY] using e, by rw [h2]; exact hv, ?_⟩
+        intro w hw
+        rcases List.mem_cons.mp hw with rfl | hw'
+        · exact hv
+        · exact hall w hw'
+      · have ⟨v, e, hv, hall⟩ := ih x
+        refine ⟨v, by simpa [h1, h2, maxKeepY] using e, hv, ?_⟩
+        intro w hw
+        rcases List.mem_cons.mp hw with rfl | hw'
+        · exact le_trans (not_lt.mp h1) hv
+        · exact hall w hw'
+
+/-- the row minimum over the non-wildcard columns: no panic (`K ≥ 2`), a lower bound of every
+    non-wildcard entry of the row -/
+theorem rowMin_le (m : Mat Rat K) (i : Nat) (hK : 2 ≤ K) :
+    ∃ v, rowExt minKeepY m i = .ok v ∧ ∀ a, a < K - 1 → v ≤ m.get i a := by
+  unfold rowExt
+  have hne : (List.range (K - 1)).map (m.get i) ≠ [] := by
+    intro h
+    have := congrArg List.length h
+    simp at this; omega
+  have hmem : ∀ a, a < K - 1 → m.get i a ∈ (List.range (K - 1)).map (m.get i) :=
+    fun a ha => List.mem_map.mpr ⟨a, List.mem_range.mpr ha, rfl⟩
+  revert hmem
+  cases hl : (List.range (K - 1)).map (m.get i) with
+  | nil => exact absurd hl hne
+  | cons x xs =>
+    intro hmem
+    have ⟨v, e, hv, hall⟩ := reduceBy_min x xs
+    refine ⟨v, e, fun a ha => ?_⟩
+    rcases List.mem_cons.mp (hmem a ha) with h | h
+    · rw [h]; exact hv
+    · exact hall _ h
+
+theorem rowMax_ge (m : Mat Rat K) (i : Nat) (hK : 2 ≤ K) :
+    ∃ v, rowExt maxKeepY m i = .ok v ∧ ∀ a, a < K - 1 → m.get i a ≤ v := by
+  unfold rowExt
+  have hne : (List.range (K - 1)).map (m.get i) ≠ [] := by
+    intro h
+    have := congrArg List.length h
+    simp at this; omega
+  have hmem : ∀ a, a < K - 1 → m.get i a ∈ (List.range (K - 1)).map (m.get i) :=
+    fun a ha => List.mem_map.mpr ⟨a, List.mem_range.mpr ha, rfl⟩
+  revert hmem
+  cases hl : (List.range (K - 1)).map (m.get i) with
+  | nil => exact absurd hl hne
+  | cons x xs =>
+    intro hmem
+    have ⟨v, e, hv, hall⟩ := reduceBy_max x xs
+    refine ⟨v, e, fun a ha => ?_⟩
+    rcases List.mem_cons.mp (hmem a ha) with h | h
+    · rw [h]; exact hv
+    · exact hall _ h
+
+/-- summing per-row values that are below (above) the terms of another left fold -/
+theorem sumRows_le (g : Nat → Except String Rat) (w : Nat → Rat) (l : List Nat) (acc acc' : Rat)
+    (hg : ∀ i ∈ l, ∃ v, g i = .ok v ∧ v ≤ w i) (hacc : acc ≤ acc') :
+    ∃ lo, sumRows g l acc = .ok lo ∧ lo ≤ l.foldl (fun a i => a + w i) acc' := by
+  induction l generalizing acc acc' with
+  | nil => exact ⟨acc, rfl, hacc⟩
+  | cons i is ih =>
+    have ⟨v, e, hv⟩ := hg i (by simp)
+    simp only [sumRows, e, List.foldl_cons, rat_add]
+    exact ih _ _ (fun k hk => hg k (by simp [hk])) (by linarith)
+
+theorem sumRows_ge (g : Nat → Except String Rat) (w : Nat → Rat) (l : List Nat) (acc acc' : Rat)
+    (hg : ∀ i ∈ l, ∃ v, g i = .ok v ∧ w i ≤ v) (hacc : acc' ≤ acc) :
+    ∃ hi, sumRows g l acc = .ok hi ∧ l.foldl (fun a i => a + w i) acc' ≤ hi := by
+  induction l generalizing acc acc' with
+  | nil => exact ⟨acc, rfl, hacc⟩
+  | cons i is ih =>
+    have ⟨v, e, hv⟩ := hg i (by simp)
+    simp only [sumRows, e, List.foldl_cons, rat_add]
+    exact ih _ _ (fun k hk => hg k (by simp [hk])) (by linarith)
+
+/-- **every window without wildcard scores between the reported minimum and maximum**: in exact
+    arithmetic `min_score` and `max_score` do not panic and bracket `score_position` for every
+    sequence whose window at `pos` contains no wildcard (symbols `< K-1`) -/
+theorem min_le_score_le_max (m : Mat Rat K) (hK : 2 ≤ K) (seq : Nat → Nat) (pos : Nat)
+    (hwin : ∀ j, j < m.rows → seq (pos + j) < K - 1) :
+    ∃ lo hi, minScore m = .ok lo ∧ maxScore m = .ok hi ∧
+      lo ≤ scorePosition m seq pos ∧ scorePosition m seq pos ≤ hi := by
+  have hlo := sumRows_le (rowExt minKeepY m) (fun j => m.get j (seq (pos + j)))
+    (List.range m.rows) 0 0
+    (fun i hi => by
+      have ⟨v, e, hv⟩ := rowMin_le m i hK
+      exact ⟨v, e, hv _ (hwin i (List.mem_range.mp hi))⟩) (le_refl _)
+  have hhi := sumRows_ge (rowExt maxKeepY m) (fun j => m.get j (seq (pos + j)))
+    (List.range m.rows) 0 0
+    (fun i hi => by
+      have ⟨v, e, hv⟩ := rowMax_ge m i hK
+      exact ⟨v, e, hv _ (hwin i (List.mem_range.mp hi))⟩) (le_refl _)
+  rcases hlo with ⟨lo, e1, h1⟩
+  rcases hhi with ⟨hi, e2, h2⟩
+  exact ⟨lo, hi, e1, e2, h1, h2⟩
+
+/-- the window score is the sum of the entries the window selects (exact) -/
+theorem scorePosition_rat (m : Mat Rat K) (seq : Nat → Nat) (pos : Nat) :
+    scorePosition m seq pos = ((List.range m.rows).map fun j => m.get j (seq (pos + j))).sum := by
+  unfold scorePosition
+  show List.foldl (fun acc j => acc + m.get j (seq (pos + j))) 0 _ = _
+  rw [foldl_add_rat]; simp
+
+/- non-vacuity: a 2×5 matrix, the window `[1, 3]` of `[0, 1, 3]`: -2 ≤ -1 ≤ 4 -/
+def exS : Mat Rat 5 := Mat.ofFn 2 fun i j => if i = 0 then ((j : Nat) : Rat) - 1 else 2 - (j : Nat)
+
+example : ∃ lo hi, minScore exS = .ok lo ∧ maxScore exS = .ok hi ∧
+    lo ≤ scorePosition exS (fun k => [0, 1, 3].getD k 0) 1 ∧
+    scorePosition exS (fun k => [0, 1, 3].getD k 0) 1 ≤ hi :=
+  min_le_score_le_max exS (by norm_num) _ 1 (by
+    intro j hj
+    have : j < 2 := by simpa [exS] using hj
+    have : j = 0 ∨ j = 1 := by omega
+    rcases this with rfl | rfl <;> decide)
+
+example :
+    minScore exS = .ok (-2) ∧ maxScore exS = .ok 4 ∧
+    scorePosition exS (fun k => [0, 1, 3].getD k 0) 1 = -1 := by
+  decide +kernel
+
+end bounds
+
 end C09
 end LMV
